@@ -733,6 +733,48 @@ pub fn alias_family(max_k: usize) -> Vec<(Ty, String, bool)> {
     out
 }
 
+// G3c: the value-boundary family. Whether a definition "is a value" is judged syntactically in three
+// places (the parser's definition-order rule, the evaluator's choice of the definition to substitute
+// next, the evaluator's notion of a finished term), and they have to agree. Groups of 2 and 3
+// definitions, each one of: a literal, terms that are *almost* literals (`-1`, `- -1`, `(1)`, `-(1)`),
+// closed computed terms (a sum, a conditional, a redex, a nested group), an alias / negation / sum /
+// call of another member, a function (closed, or mentioning another member); the body is one of the
+// members. No annotations (the checker infers them), so ill-typed combinations are simply rejected.
+pub fn value_boundary_family(max_k: usize) -> Vec<String> {
+    let closed = ["1", "-1", "- -1", "(1)", "-(1)", "1 + 2", "if true then 1 else 2", "((n : int) => n) 4", "(z = 3; z)", "(n => n + 1)"];
+    let mut out = vec![];
+    for k in 2..=max_k {
+        let mut shapes: Vec<Vec<String>> = vec![];
+        for i in 0..k {
+            let mut v: Vec<String> = closed.iter().map(|s| s.to_string()).collect();
+            for j in 0..k {
+                if j != i {
+                    v.push(format!("d{j}"));
+                    v.push(format!("-d{j}"));
+                    v.push(format!("d{j} + 1"));
+                    v.push(format!("d{j} 2"));
+                    v.push(format!("(n => n + d{j})"));
+                }
+            }
+            shapes.push(v);
+        }
+        let per = shapes[0].len();
+        let total = per.pow(k as u32);
+        for code in 0..total {
+            let mut c = code;
+            let mut defs = vec![];
+            for (i, sh) in shapes.iter().enumerate() {
+                defs.push(format!("d{i} = {}", sh[c % per]));
+                c /= per;
+            }
+            for b in 0..k {
+                out.push(format!("{}; d{b}", defs.join("; ")));
+            }
+        }
+    }
+    out
+}
+
 // G3b: the nested-group family. Two functions f and g of one group (either order; f recursive, or
 // referring forward to g, or mutually recursive with it), a definition group nested in f's body
 // (with the recursive call in the nested group's body, or in its definitions, or capturing the
